@@ -232,7 +232,7 @@ def oracle_builtin(case, r):
     for a, b in r["anoms"]:
         if not (0 < a and b < n and b - a >= m):
             return f"anomaly [{a},{b}) is not strictly inside the data with length >= {m}"
-    if r["scale"] is not None and abs(r["thr"] - r["scale"] * r["default_thr"]) > 1e-12 * (1 + abs(r["thr"])):
+    if r["scale"] is not None and not abs(r["thr"] - r["scale"] * r["default_thr"]) <= 1e-12 * (1 + abs(r["thr"])):
         return f"threshold_ {r['thr']} is not threshold_scale x default"
     return None
 
